@@ -30,31 +30,31 @@ variable {σ σ₁ σ₂ α : Type} [DecidableEq σ] [DecidableEq σ₁] [Decida
 
 /-- A union–find representative choice for the subset states of a pair of operands. -/
 abbrev Pick (σ₁ σ₂ : Type) :=
-  HK.UF (List σ₁ ⊕ List σ₂) → List σ₁ ⊕ List σ₂ → List σ₁ ⊕ List σ₂ → Bool
+  HKG.UF (List σ₁ ⊕ List σ₂) → List σ₁ ⊕ List σ₂ → List σ₁ ⊕ List σ₂ → Bool
 
 /-- The finite universe of subset states: canonical sublists of either state list. -/
 def univ (A : AV.NFA σ₁ α) (B : AV.NFA σ₂ α) : List (List σ₁ ⊕ List σ₂) :=
   A.states.sublists.map .inl ++ B.states.sublists.map .inr
 
-theorem canon_mem_univ_inl (A : AV.NFA σ₁ α) (B : AV.NFA σ₂ α) (S : List σ₁) :
-    (.inl (A.canon S) : List σ₁ ⊕ List σ₂) ∈ univ A B := by
+theorem subsetCanon_mem_univ_inl (A : AV.NFA σ₁ α) (B : AV.NFA σ₂ α) (S : List σ₁) :
+    (.inl (A.subsetCanon S) : List σ₁ ⊕ List σ₂) ∈ univ A B := by
   unfold univ
-  refine List.mem_append_left _ (List.mem_map.mpr ⟨A.canon S, ?_, rfl⟩)
+  refine List.mem_append_left _ (List.mem_map.mpr ⟨A.subsetCanon S, ?_, rfl⟩)
   rw [List.mem_sublists]
   exact List.filter_sublist
 
-theorem canon_mem_univ_inr (A : AV.NFA σ₁ α) (B : AV.NFA σ₂ α) (S : List σ₂) :
-    (.inr (B.canon S) : List σ₁ ⊕ List σ₂) ∈ univ A B := by
+theorem subsetCanon_mem_univ_inr (A : AV.NFA σ₁ α) (B : AV.NFA σ₂ α) (S : List σ₂) :
+    (.inr (B.subsetCanon S) : List σ₁ ⊕ List σ₂) ∈ univ A B := by
   unfold univ
-  refine List.mem_append_right _ (List.mem_map.mpr ⟨B.canon S, ?_, rfl⟩)
+  refine List.mem_append_right _ (List.mem_map.mpr ⟨B.subsetCanon S, ?_, rfl⟩)
   rw [List.mem_sublists]
   exact List.filter_sublist
 
 theorem univ_closed (A : AV.NFA σ₁ α) (B : AV.NFA σ₂ α) (x : List σ₁ ⊕ List σ₂) (a : α) :
     eqStep A B x a ∈ univ A B := by
   cases x with
-  | inl S => exact canon_mem_univ_inl A B _
-  | inr S => exact canon_mem_univ_inr A B _
+  | inl S => exact subsetCanon_mem_univ_inl A B _
+  | inr S => exact subsetCanon_mem_univ_inr A B _
 
 theorem univ_length (A : AV.NFA σ₁ α) (B : AV.NFA σ₂ α) :
     (univ A B).length + 2 = eqFuel A B := by
@@ -65,13 +65,13 @@ theorem univ_length (A : AV.NFA σ₁ α) (B : AV.NFA σ₂ α) :
 equality of the two NFA languages on all words. -/
 theorem langEq_iff (A : AV.NFA σ₁ α) (B : AV.NFA σ₂ α) (hA : A.validate = .ok ())
     (hB : B.validate = .ok ()) (hs : sameSyms A.syms B.syms = true) :
-    HK.LangEq (eqStep A B) (eqIsFinal A B) A.syms
-        (.inl (A.canon (A.closure A.init))) (.inr (B.canon (B.closure B.init))) ↔
+    HKG.LangEq (eqStep A B) (eqIsFinal A B) A.syms
+        (.inl (A.subsetCanon (A.closure A.init))) (.inr (B.subsetCanon (B.closure B.init))) ↔
       ∀ w, A.accepts w = B.accepts w := by
   have wfA := (NFA.validate_eq_ok A).mp hA
   have wfB := (NFA.validate_eq_ok B).mp hB
   have hsy := (sameSyms_iff A.syms B.syms).mp hs
-  unfold HK.LangEq
+  unfold HKG.LangEq
   simp only [eqIsFinal_runW_inl A B wfA, eqIsFinal_runW_inr A B wfB]
   constructor
   · intro h w
@@ -96,16 +96,16 @@ theorem eqImpl_spec (pick : Pick σ₁ σ₂) (A : AV.NFA σ₁ α) (B : AV.NFA 
     ∃ v : Bool, eqImpl pick A B = .val v ∧ (v = true ↔ ∀ w, A.accepts w = B.accepts w) := by
   unfold eqImpl
   simp only [hs, if_true]
-  have hne := HK.run_ne_none (eqStep A B) (eqIsFinal A B) A.syms pick (univ A B)
+  have hne := HKG.run_ne_none (eqStep A B) (eqIsFinal A B) A.syms pick (univ A B)
     (fun x _ a _ => univ_closed A B x a)
-    (.inl (A.canon (A.closure A.init))) (.inr (B.canon (B.closure B.init)))
-    (canon_mem_univ_inl A B _) (canon_mem_univ_inr A B _) (eqFuel A B) (by rw [univ_length])
-  cases hr : HK.run (eqStep A B) (eqIsFinal A B) A.syms pick (eqFuel A B)
-      (.inl (A.canon (A.closure A.init))) (.inr (B.canon (B.closure B.init))) with
+    (.inl (A.subsetCanon (A.closure A.init))) (.inr (B.subsetCanon (B.closure B.init)))
+    (subsetCanon_mem_univ_inl A B _) (subsetCanon_mem_univ_inr A B _) (eqFuel A B) (by rw [univ_length])
+  cases hr : HKG.run (eqStep A B) (eqIsFinal A B) A.syms pick (eqFuel A B)
+      (.inl (A.subsetCanon (A.closure A.init))) (.inr (B.subsetCanon (B.closure B.init))) with
   | none => exact absurd hr hne
   | some v =>
     refine ⟨v, rfl, ?_⟩
-    rw [HK.run_iff _ _ _ _ _ _ _ v hr]
+    rw [HKG.run_iff _ _ _ _ _ _ _ v hr]
     exact langEq_iff A B hA hB hs
 
 theorem sameSyms_comm (xs ys : List α) : sameSyms xs ys = sameSyms ys xs := by
@@ -202,10 +202,10 @@ the plain test "some member is final" on every subset state the loop can build: 
 ε-closed subsets of the state set.  (Hence replacing the closure test by plain membership
 changes nothing — DESIGN.md Appendix D, mutant m20, is an equivalent mutant.) -/
 theorem C09_final_test_reclosing_redundant (n : AV.NFA σ α) (hv : n.validate = .ok ()) (w : List α) :
-    n.setFinal (n.canon (n.runFrom (n.closure n.init) w)) =
+    n.setFinal (n.subsetCanon (n.runFrom (n.closure n.init) w)) =
       n.anyFinal (n.runFrom (n.closure n.init) w) := by
   have wf := (NFA.validate_eq_ok n).mp hv
-  exact setFinal_canon (goodSet_runFrom wf (goodSet_start wf) w)
+  exact setFinal_subsetCanon (goodSet_runFrom wf (goodSet_start wf) w)
 
 /-! ## non-vacuity -/
 
@@ -225,7 +225,7 @@ def exC : AV.NFA Nat Nat :=
   { states := [0, 1], syms := [0], trans := [(0, [(some 0, [1])]), (1, [(some 0, [1])])],
     init := 0, finals := [1] }
 
-def exPick : Pick Nat Nat := HK.nxPick fun _ _ => true
+def exPick : Pick Nat Nat := HKG.nxPick fun _ _ => true
 
 example : exA.validate = .ok () ∧ exB.validate = .ok () ∧ exC.validate = .ok () := by decide
 example : sameSyms exA.syms exB.syms = true := by decide
